@@ -57,16 +57,901 @@ theorem hex_lower (bs : List Nat) (h : Bytes bs) : ∀ c ∈ hexEncode bs, c ∈
     · exact hexDigit_lower _ (by omega)
     · exact ih hbs c hc
 
-theorem hexDecode_soundX (hs : List Char) (bs : List Nat) (h : hexDecode hs = some bs) :
+theorem hexDecode_sound (hs : List Char) (bs : List Nat) (h : hexDecode hs = some bs) :
     Bytes bs ∧ hs.length = 2 * bs.length := by
   fun_induction hexDecode hs generalizing bs with
   | case1 => cases h; exact ⟨Bytes.nil, rfl⟩
   | case2 => cases h
-  | case3 h1 h2 hs hi lo r e1 e2 e3 ih =>
+  | case3 h1 h2 hs hi lo r e3 e2 e1 ih =>
     cases h
     have ⟨hb, hl⟩ := ih r e3
     have := hexVal_lt e1; have := hexVal_lt e2
     exact ⟨Bytes.cons_iff.mpr ⟨by omega, hb⟩, by simp [hl]; omega⟩
   | case4 => cases h
+
+/-- the error condition of `hex_bytes/2`: odd length or a character that is no hex digit -/
+theorem hexDecode_none_iff (hs : List Char) :
+    hexDecode hs = none ↔ hs.length % 2 = 1 ∨ ∃ c ∈ hs, hexVal c = none := by
+  fun_induction hexDecode hs with
+  | case1 => simp
+  | case2 c => simp
+  | case3 h1 h2 hs hi lo r e3 e2 e1 ih =>
+    simp only [false_iff, reduceCtorEq] at ih ⊢
+    simp only [List.length_cons, List.mem_cons, not_or, not_exists, not_and] at ih ⊢
+    rw [e3] at ih
+    simp at ih
+    refine ⟨by omega, ?_⟩
+    intro c hc
+    rcases hc with rfl | rfl | hc
+    · simp [e1]
+    · simp [e2]
+    · exact ih.2 c hc
+  | case4 h1 h2 hs hno ih =>
+    simp only [true_iff]
+    cases e1 : hexVal h1 with
+    | none => exact Or.inr ⟨h1, by simp, e1⟩
+    | some hi =>
+      cases e2 : hexVal h2 with
+      | none => exact Or.inr ⟨h2, by simp, e2⟩
+      | some lo =>
+        cases e3 : hexDecode hs with
+        | some r => exact (hno hi lo r e1 e2 e3).elim
+        | none =>
+          rcases ih.mp e3 with h | ⟨c, hc, hv⟩
+          · left; simp; omega
+          · right; exact ⟨c, by simp [hc], hv⟩
+
+/-! ## Base64 -/
+
+theorem b64Val_b64Char : ∀ (url : Bool) (n : Nat), n < 64 → b64Val url (b64Char url n) = some n := by
+  decide
+
+theorem b64Char_mem : ∀ (url : Bool) (n : Nat), n < 64 → b64Char url n ∈ b64Alphabet url := by
+  decide
+
+theorem b64Char_notPad : ∀ (url : Bool) (n : Nat), n < 64 → notPad (b64Char url n) = true := by
+  decide
+
+theorem b64Alphabet_length (url : Bool) : (b64Alphabet url).length = 64 := by
+  cases url <;> rfl
+
+theorem getD_idxOf {l : List Char} {c d : Char} (h : l.idxOf c < l.length) :
+    l.getD (l.idxOf c) d = c := by
+  induction l with
+  | nil => simp at h
+  | cons a l ih =>
+    rw [List.idxOf_cons] at h ⊢
+    by_cases hac : a = c
+    · subst hac; simp
+    · have : (a == c) = false := by simpa using hac
+      simp only [this, cond_false, List.length_cons] at h ⊢
+      simp only [List.getD_cons_succ]
+      exact ih (by omega)
+
+theorem b64Val_some {url : Bool} {c : Char} {v : Nat} (h : b64Val url c = some v) :
+    v < 64 ∧ b64Char url v = c := by
+  unfold b64Val at h
+  simp only at h
+  split at h
+  · cases h
+    next hlt =>
+    refine ⟨hlt, ?_⟩
+    unfold b64Char
+    exact getD_idxOf (by rw [b64Alphabet_length]; exact hlt)
+  · cases h
+
+def Sext (ss : List Nat) : Prop := ∀ s ∈ ss, s < 64
+
+theorem Sext.cons_iff {s : Nat} {ss : List Nat} : Sext (s :: ss) ↔ s < 64 ∧ Sext ss := by
+  simp [Sext]
+
+theorem sextets_sext (bs : List Nat) (h : Bytes bs) : Sext (sextets bs) := by
+  fun_induction sextets bs with
+  | case1 => intro s hs; cases hs
+  | case2 a =>
+    have := h a (by simp)
+    intro s hs; simp at hs; rcases hs with rfl | rfl <;> omega
+  | case3 a b =>
+    have := h a (by simp); have := h b (by simp)
+    intro s hs; simp at hs; rcases hs with rfl | rfl | rfl <;> omega
+  | case4 a b c rest ih =>
+    have := h a (by simp); have := h b (by simp); have := h c (by simp)
+    have hr : Bytes rest := fun x hx => h x (by simp [hx])
+    intro s hs; simp only [List.mem_cons] at hs
+    rcases hs with rfl | rfl | rfl | rfl | hs
+    · omega
+    · omega
+    · omega
+    · omega
+    · exact ih hr s hs
+
+theorem unsextets_sextets (bs : List Nat) (h : Bytes bs) : unsextets (sextets bs) = some bs := by
+  fun_induction sextets bs with
+  | case1 => rfl
+  | case2 a =>
+    have := h a (by simp)
+    simp only [unsextets]
+    rw [if_pos (by omega)]; congr 2; omega
+  | case3 a b =>
+    have := h a (by simp); have := h b (by simp)
+    simp only [unsextets]
+    rw [if_pos (by omega)]
+    have e1 : a / 4 * 4 + (a % 4 * 16 + b / 16) / 16 = a := by omega
+    have e2 : (a % 4 * 16 + b / 16) % 16 * 16 + b % 16 * 4 / 4 = b := by omega
+    rw [e1, e2]
+  | case4 a b c rest ih =>
+    have := h a (by simp); have := h b (by simp); have := h c (by simp)
+    have hr : Bytes rest := fun x hx => h x (by simp [hx])
+    simp only [unsextets, ih hr]
+    have e1 : a / 4 * 4 + (a % 4 * 16 + b / 16) / 16 = a := by omega
+    have e2 : (a % 4 * 16 + b / 16) % 16 * 16 + (b % 16 * 4 + c / 64) / 4 = b := by omega
+    have e3 : (b % 16 * 4 + c / 64) % 4 * 64 + c % 64 = c := by omega
+    rw [e1, e2, e3]
+
+theorem b64Vals_map (url : Bool) (ss : List Nat) (h : Sext ss) :
+    b64Vals url (ss.map (b64Char url)) = some ss := by
+  induction ss with
+  | nil => rfl
+  | cons s ss ih =>
+    have ⟨h1, h2⟩ := Sext.cons_iff.mp h
+    simp [b64Vals, b64Val_b64Char url s h1, ih h2]
+
+theorem sextets_length (bs : List Nat) : (sextets bs).length = (4 * bs.length + 2) / 3 := by
+  fun_induction sextets bs with
+  | case1 => rfl
+  | case2 => simp
+  | case3 => simp
+  | case4 a b c rest ih => simp only [List.length_cons, ih]; omega
+
+theorem padFor_sextets (bs : List Nat) : padFor (sextets bs).length = some (padCount bs.length) := by
+  fun_induction sextets bs with
+  | case1 => rfl
+  | case2 => rfl
+  | case3 => rfl
+  | case4 a b c rest ih =>
+    simp only [List.length_cons]
+    have e1 : padFor ((sextets rest).length + 1 + 1 + 1 + 1) = padFor (sextets rest).length := by
+      unfold padFor
+      have : ((sextets rest).length + 1 + 1 + 1 + 1) % 4 = (sextets rest).length % 4 := by omega
+      rw [this]
+    have e2 : padCount (rest.length + 1 + 1 + 1) = padCount rest.length := by
+      unfold padCount
+      have : (rest.length + 1 + 1 + 1) % 3 = rest.length % 3 := by omega
+      rw [this]
+    rw [e1, e2, ih]
+
+theorem takeWhile_body_pad (body : List Char) (k : Nat) (hb : ∀ c ∈ body, notPad c = true) :
+    (body ++ List.replicate k '=').takeWhile notPad = body
+    ∧ (body ++ List.replicate k '=').dropWhile notPad = List.replicate k '=' := by
+  rw [List.takeWhile_append_of_pos hb, List.dropWhile_append_of_pos hb]
+  cases k with
+  | zero => simp
+  | succ k => simp [List.replicate_succ, notPad]
+
+theorem tailOk_pad (n k : Nat) (h : padFor n = some k) :
+    tailOk true n (List.replicate k '=') = true := by
+  simp [tailOk, h]
+
+theorem tailOk_nopad (n : Nat) : tailOk false n [] = true := by
+  simp [tailOk]
+
+theorem tailOk_elim {pad : Bool} {n : Nat} {tail : List Char} (h : tailOk pad n tail = true) :
+    (pad = true ∧ ∃ k, padFor n = some k ∧ tail = List.replicate k '=') ∨ (pad = false ∧ tail = []) := by
+  unfold tailOk at h
+  cases pad with
+  | true =>
+    left
+    simp only [if_true] at h
+    cases hp : padFor n with
+    | none => simp [hp] at h
+    | some k => simp [hp] at h; exact ⟨rfl, k, rfl, h⟩
+  | false =>
+    right
+    simpa using h
+
+theorem b64_roundtrip (o : B64Opts) (bs : List Nat) (h : Bytes bs) :
+    b64Decode o (b64Encode o bs) = some bs := by
+  have hs := sextets_sext bs h
+  have hbody : ∀ c ∈ (sextets bs).map (b64Char o.url), notPad c = true := by
+    intro c hc
+    rcases List.mem_map.mp hc with ⟨s, hs', rfl⟩
+    exact b64Char_notPad o.url s (hs s hs')
+  unfold b64Decode b64Encode
+  cases hp : o.pad with
+  | true =>
+    have ⟨e1, e2⟩ := takeWhile_body_pad _ (padCount bs.length) hbody
+    simp only [if_true, e1, e2, List.length_map, tailOk_pad _ _ (padFor_sextets bs),
+      b64Vals_map o.url _ hs, unsextets_sextets bs h]
+  | false =>
+    have ⟨e1, e2⟩ := takeWhile_body_pad _ 0 hbody
+    simp only [List.replicate_zero, List.append_nil] at e1 e2
+    simp [e1, e2, tailOk_nopad, b64Vals_map o.url _ hs, unsextets_sextets bs h]
+
+theorem b64_length (o : B64Opts) (bs : List Nat) :
+    (b64Encode o bs).length =
+      if o.pad then 4 * ((bs.length + 2) / 3) else (4 * bs.length + 2) / 3 := by
+  unfold b64Encode
+  cases o.pad with
+  | true => simp [sextets_length, padCount]; omega
+  | false => simp [sextets_length]
+
+
+theorem b64Vals_some {url : Bool} {cs : List Char} {vs : List Nat} (h : b64Vals url cs = some vs) :
+    Sext vs ∧ vs.map (b64Char url) = cs := by
+  induction cs generalizing vs with
+  | nil =>
+    simp [b64Vals] at h; subst h
+    exact ⟨fun _ h => (by cases h), rfl⟩
+  | cons c cs ih =>
+    simp only [b64Vals] at h
+    cases e1 : b64Val url c with
+    | none => simp [e1] at h
+    | some v =>
+      cases e2 : b64Vals url cs with
+      | none => simp [e1, e2] at h
+      | some r =>
+        simp [e1, e2] at h
+        subst h
+        have ⟨hv, hc⟩ := b64Val_some e1
+        have ⟨hr, hm⟩ := ih e2
+        exact ⟨Sext.cons_iff.mpr ⟨hv, hr⟩, by simp [hc, hm]⟩
+
+theorem sextets_unsextets (vs bs : List Nat) (hv : Sext vs) (h : unsextets vs = some bs) :
+    sextets bs = vs ∧ Bytes bs := by
+  fun_induction unsextets vs generalizing bs with
+  | case1 => cases h; exact ⟨rfl, Bytes.nil⟩
+  | case2 => cases h
+  | case3 a b hb =>
+    cases h
+    have := hv a (by simp); have := hv b (by simp)
+    refine ⟨?_, Bytes.cons_iff.mpr ⟨by omega, Bytes.nil⟩⟩
+    simp only [sextets]
+    have e1 : (a * 4 + b / 16) / 4 = a := by omega
+    have e2 : (a * 4 + b / 16) % 4 * 16 = b := by omega
+    rw [e1, e2]
+  | case4 a b hb => cases h
+  | case5 a b c hc =>
+    cases h
+    have := hv a (by simp); have := hv b (by simp); have := hv c (by simp)
+    refine ⟨?_, Bytes.cons_iff.mpr ⟨by omega, Bytes.cons_iff.mpr ⟨by omega, Bytes.nil⟩⟩⟩
+    simp only [sextets]
+    have e1 : (a * 4 + b / 16) / 4 = a := by omega
+    have e2 : (a * 4 + b / 16) % 4 * 16 + (b % 16 * 16 + c / 4) / 16 = b := by omega
+    have e3 : (b % 16 * 16 + c / 4) % 16 * 4 = c := by omega
+    rw [e1, e2, e3]
+  | case6 a b c hc => cases h
+  | case7 a b c d rest r e ih =>
+    cases h
+    have := hv a (by simp); have := hv b (by simp); have := hv c (by simp); have := hv d (by simp)
+    have hr : Sext rest := fun x hx => hv x (by simp [hx])
+    have ⟨i1, i2⟩ := ih r hr e
+    refine ⟨?_, Bytes.cons_iff.mpr ⟨by omega, Bytes.cons_iff.mpr ⟨by omega, Bytes.cons_iff.mpr ⟨by omega, i2⟩⟩⟩⟩
+    simp only [sextets, i1]
+    have e1 : (a * 4 + b / 16) / 4 = a := by omega
+    have e2 : (a * 4 + b / 16) % 4 * 16 + (b % 16 * 16 + c / 4) / 16 = b := by omega
+    have e3 : (b % 16 * 16 + c / 4) % 16 * 4 + (c % 4 * 64 + d) / 64 = c := by omega
+    have e4 : (c % 4 * 64 + d) % 64 = d := by omega
+    rw [e1, e2, e3, e4]
+  | case8 a b c d rest e ih => cases h
+
+theorem b64_decode_canonical (o : B64Opts) (cs : List Char) (bs : List Nat)
+    (h : b64Decode o cs = some bs) : Bytes bs ∧ b64Encode o bs = cs := by
+  unfold b64Decode at h
+  simp only at h
+  have hcs : cs = cs.takeWhile notPad ++ cs.dropWhile notPad :=
+    (List.takeWhile_append_dropWhile).symm
+  generalize cs.takeWhile notPad = body at h hcs
+  generalize cs.dropWhile notPad = tail at h hcs
+  by_cases hok : tailOk o.pad body.length tail = true
+  · rw [if_pos hok] at h
+    cases hv : b64Vals o.url body with
+    | none => simp [hv] at h
+    | some vs =>
+      simp only [hv] at h
+      have ⟨hsx, hmap⟩ := b64Vals_some hv
+      have ⟨hse, hby⟩ := sextets_unsextets vs bs hsx h
+      refine ⟨hby, ?_⟩
+      unfold b64Encode
+      rw [hse, hmap, hcs]
+      congr 1
+      have hlen : body.length = (sextets bs).length := by rw [hse, ← hmap]; simp
+      rcases tailOk_elim hok with ⟨hp, k, hk, ht⟩ | ⟨hp, ht⟩
+      · rw [hlen, padFor_sextets] at hk
+        cases hk
+        simp [hp, ht]
+      · simp [hp, ht]
+  · rw [if_neg hok] at h; cases h
+
+
+/-! ## UTF-8 -/
+
+theorem utf8Decode_1 (b0 : Nat) (r : List Nat) (h : b0 < 0x80) :
+    utf8Decode (b0 :: r) = (utf8Decode r).map (b0 :: ·) := by
+  rw [utf8Decode.eq_def]
+  simp only [if_pos h]
+
+theorem utf8Decode_2 (b0 b1 : Nat) (r : List Nat) (h0 : 0xC0 ≤ b0) (h0' : b0 < 0xE0)
+    (h1 : isCont b1) (hc : 0x80 ≤ cp2 b0 b1) :
+    utf8Decode (b0 :: b1 :: r) = (utf8Decode r).map (cp2 b0 b1 :: ·) := by
+  rw [utf8Decode.eq_def]
+  simp only []
+  rw [if_neg (by omega), if_neg (by omega), if_pos h0', if_pos ⟨h1, hc⟩]
+
+theorem utf8Decode_3 (b0 b1 b2 : Nat) (r : List Nat) (h0 : 0xE0 ≤ b0) (h0' : b0 < 0xF0)
+    (h1 : isCont b1) (h2 : isCont b2) (hc : 0x800 ≤ cp3 b0 b1 b2) (hs : isScalar (cp3 b0 b1 b2)) :
+    utf8Decode (b0 :: b1 :: b2 :: r) = (utf8Decode r).map (cp3 b0 b1 b2 :: ·) := by
+  rw [utf8Decode.eq_def]
+  simp only []
+  rw [if_neg (by omega), if_neg (by omega), if_neg (by omega), if_pos h0', if_pos ⟨h1, h2, hc, hs⟩]
+
+theorem utf8Decode_4 (b0 b1 b2 b3 : Nat) (r : List Nat) (h0 : 0xF0 ≤ b0) (h0' : b0 < 0xF8)
+    (h1 : isCont b1) (h2 : isCont b2) (h3 : isCont b3) (hc : 0x10000 ≤ cp4 b0 b1 b2 b3)
+    (hc' : cp4 b0 b1 b2 b3 < 0x110000) :
+    utf8Decode (b0 :: b1 :: b2 :: b3 :: r) = (utf8Decode r).map (cp4 b0 b1 b2 b3 :: ·) := by
+  rw [utf8Decode.eq_def]
+  simp only []
+  rw [if_neg (by omega), if_neg (by omega), if_neg (by omega), if_neg (by omega), if_pos h0',
+    if_pos ⟨h1, h2, h3, hc, hc'⟩]
+
+theorem utf8Decode_encodeChar (c : Nat) (r : List Nat) (hc : isScalar c) :
+    utf8Decode (utf8EncodeChar c ++ r) = (utf8Decode r).map (c :: ·) := by
+  unfold utf8EncodeChar
+  unfold isScalar at hc
+  split
+  · exact utf8Decode_1 c r (by assumption)
+  · split
+    · have e : cp2 (0xC0 + c / 64) (0x80 + c % 64) = c := by unfold cp2; omega
+      have := utf8Decode_2 (0xC0 + c / 64) (0x80 + c % 64) r (by omega) (by omega)
+        (by unfold isCont; omega) (by rw [e]; omega)
+      rw [e] at this
+      simpa using this
+    · split
+      · have e : cp3 (0xE0 + c / 4096) (0x80 + c / 64 % 64) (0x80 + c % 64) = c := by
+          unfold cp3; omega
+        have := utf8Decode_3 (0xE0 + c / 4096) (0x80 + c / 64 % 64) (0x80 + c % 64) r
+          (by omega) (by omega) (by unfold isCont; omega) (by unfold isCont; omega)
+          (by rw [e]; omega) (by rw [e]; exact hc)
+        rw [e] at this
+        simpa using this
+      · have e : cp4 (0xF0 + c / 262144) (0x80 + c / 4096 % 64) (0x80 + c / 64 % 64) (0x80 + c % 64) = c := by
+          unfold cp4; omega
+        have := utf8Decode_4 (0xF0 + c / 262144) (0x80 + c / 4096 % 64) (0x80 + c / 64 % 64)
+          (0x80 + c % 64) r
+          (by omega) (by omega) (by unfold isCont; omega) (by unfold isCont; omega)
+          (by unfold isCont; omega) (by rw [e]; omega) (by rw [e]; omega)
+        rw [e] at this
+        simpa using this
+
+def Scalars (cs : List Nat) : Prop := ∀ c ∈ cs, isScalar c
+
+theorem utf8_roundtrip (cs : List Nat) (h : Scalars cs) : utf8Decode (utf8Encode cs) = some cs := by
+  induction cs with
+  | nil => rfl
+  | cons c cs ih =>
+    have hc : isScalar c := h c (by simp)
+    have hcs : Scalars cs := fun x hx => h x (by simp [hx])
+    simp only [utf8Encode]
+    rw [utf8Decode_encodeChar c _ hc, ih hcs]
+    rfl
+
+theorem utf8EncodeChar_bytes (c : Nat) (h : c < 0x110000) : Bytes (utf8EncodeChar c) := by
+  unfold utf8EncodeChar
+  intro b hb
+  split at hb
+  · simp at hb; omega
+  · split at hb
+    · simp at hb; omega
+    · split at hb
+      · simp at hb; omega
+      · simp at hb; omega
+
+theorem utf8EncodeChar_length (c : Nat) :
+    1 ≤ (utf8EncodeChar c).length ∧ (utf8EncodeChar c).length ≤ 4 := by
+  unfold utf8EncodeChar
+  split
+  · simp
+  · split
+    · simp
+    · split <;> simp
+
+
+theorem enc1 (c : Nat) (h : c < 0x80) : utf8EncodeChar c = [c] := by
+  unfold utf8EncodeChar; rw [if_pos h]
+
+theorem enc2 (b0 b1 : Nat) (h0 : 0xC0 ≤ b0) (h0' : b0 < 0xE0) (h1 : isCont b1)
+    (hc : 0x80 ≤ cp2 b0 b1) : utf8EncodeChar (cp2 b0 b1) = [b0, b1] := by
+  unfold isCont at h1
+  unfold utf8EncodeChar
+  unfold cp2 at hc ⊢
+  rw [if_neg (by omega), if_pos (by omega)]
+  simp only [List.cons.injEq, and_true]
+  omega
+
+theorem enc3 (b0 b1 b2 : Nat) (h0 : 0xE0 ≤ b0) (h0' : b0 < 0xF0) (h1 : isCont b1) (h2 : isCont b2)
+    (hc : 0x800 ≤ cp3 b0 b1 b2) : utf8EncodeChar (cp3 b0 b1 b2) = [b0, b1, b2] := by
+  unfold isCont at h1 h2
+  unfold utf8EncodeChar
+  unfold cp3 at hc ⊢
+  rw [if_neg (by omega), if_neg (by omega), if_pos (by omega)]
+  simp only [List.cons.injEq, and_true]
+  omega
+
+theorem enc4 (b0 b1 b2 b3 : Nat) (h0 : 0xF0 ≤ b0) (h0' : b0 < 0xF8) (h1 : isCont b1)
+    (h2 : isCont b2) (h3 : isCont b3) (hc : 0x10000 ≤ cp4 b0 b1 b2 b3) :
+    utf8EncodeChar (cp4 b0 b1 b2 b3) = [b0, b1, b2, b3] := by
+  unfold isCont at h1 h2 h3
+  unfold utf8EncodeChar
+  unfold cp4 at hc ⊢
+  rw [if_neg (by omega), if_neg (by omega), if_neg (by omega)]
+  simp only [List.cons.injEq, and_true]
+  omega
+
+theorem Scalars.cons {c : Nat} {cs : List Nat} (hc : isScalar c) (h : Scalars cs) :
+    Scalars (c :: cs) := by
+  intro x hx
+  rcases List.mem_cons.mp hx with rfl | hx
+  · exact hc
+  · exact h x hx
+
+/-- the strict decoder accepts exactly the encodings of scalar values -/
+theorem utf8Decode_canonical (bs cs : List Nat) (h : utf8Decode bs = some cs) :
+    Scalars cs ∧ utf8Encode cs = bs := by
+  fun_induction utf8Decode bs generalizing cs with
+  | case1 => cases h; exact ⟨fun _ h => (by cases h), rfl⟩
+  | case2 b bs hb ih =>
+    rcases Option.map_eq_some_iff.mp h with ⟨r, e, rfl⟩
+    have ⟨i1, i2⟩ := ih r e
+    exact ⟨Scalars.cons (by unfold isScalar; omega) i1, by simp [utf8Encode, enc1 b hb, i2]⟩
+  | case4 b h1 h2 h3 b1 r hc ih =>
+    rcases Option.map_eq_some_iff.mp h with ⟨r', e, rfl⟩
+    have ⟨i1, i2⟩ := ih r' e
+    have hlt : cp2 b b1 < 0x800 := by unfold cp2; omega
+    exact ⟨Scalars.cons (by unfold isScalar; omega) i1,
+      by simp [utf8Encode, enc2 b b1 (by omega) h3 hc.1 hc.2, i2]⟩
+  | case7 b h1 h2 h3 h4 b1 b2 r hc ih =>
+    rcases Option.map_eq_some_iff.mp h with ⟨r', e, rfl⟩
+    have ⟨i1, i2⟩ := ih r' e
+    exact ⟨Scalars.cons hc.2.2.2 i1,
+      by simp [utf8Encode, enc3 b b1 b2 (by omega) h4 hc.1 hc.2.1 hc.2.2.1, i2]⟩
+  | case10 b h1 h2 h3 h4 h5 b1 b2 b3 r hc ih =>
+    rcases Option.map_eq_some_iff.mp h with ⟨r', e, rfl⟩
+    have ⟨i1, i2⟩ := ih r' e
+    exact ⟨Scalars.cons (by unfold isScalar; omega) i1,
+      by simp [utf8Encode, enc4 b b1 b2 b3 (by omega) h5 hc.1 hc.2.1 hc.2.2.1 hc.2.2.2.1, i2]⟩
+  | case3 => cases h
+  | case5 => cases h
+  | case6 => cases h
+  | case8 => cases h
+  | case9 => cases h
+  | case11 => cases h
+  | case12 => cases h
+  | case13 => cases h
+
+
+theorem or80 : ∀ x, x < 64 → 0x80 ||| x = 0x80 + x := by decide
+theorem orC0 : ∀ x, x < 32 → 0xC0 ||| x = 0xC0 + x := by decide
+theorem orE0 : ∀ x, x < 16 → 0xE0 ||| x = 0xE0 + x := by decide
+theorem orF0 : ∀ x, x < 8 → 0xF0 ||| x = 0xF0 + x := by decide
+
+theorem shr_and (c k : Nat) : (c >>> k) &&& 0x3F = c / 2 ^ k % 64 := by
+  rw [Nat.shiftRight_eq_div_pow]
+  exact Nat.and_two_pow_sub_one_eq_mod _ 6
+
+set_option maxRecDepth 100000 in
+theorem lead_bits : ∀ b, b < 256 →
+    ((b &&& 0x80 = 0) = (b < 0x80)) ∧ ((b &&& 0xE0 = 0xC0) = (0xC0 ≤ b ∧ b < 0xE0))
+    ∧ ((b &&& 0xF0 = 0xE0) = (0xE0 ≤ b ∧ b < 0xF0)) ∧ ((b &&& 0xF8 = 0xF0) = (0xF0 ≤ b ∧ b < 0xF8))
+    ∧ ((b &&& 0xC0 = 0x80) = (0x80 ≤ b ∧ b < 0xC0)) := by
+  decide
+
+/-- the clauses of `code_to_utf8//1` / `encode//3` compute the RFC 3629 table -/
+theorem utf8EncodeCharMech_eq (c : Nat) (h : c < 0x110000) :
+    utf8EncodeCharMech c = some (utf8EncodeChar c) := by
+  unfold utf8EncodeCharMech utf8EncodeChar
+  split
+  · rfl
+  · split
+    · simp only [encodeGo, shr_and, Nat.mul_zero, Nat.mul_one, Nat.pow_zero, Nat.div_one]
+      rw [orC0 _ (by omega), or80 _ (by omega)]
+      simp only [Option.some.injEq, List.cons.injEq, and_true]
+      omega
+    · split
+      · simp only [encodeGo, shr_and, Nat.mul_zero, Nat.mul_one, Nat.pow_zero, Nat.div_one]
+        rw [orE0 _ (by omega), or80 _ (by omega), or80 _ (by omega)]
+        simp only [Option.some.injEq, List.cons.injEq, and_true]
+        omega
+      · simp only [encodeGo, shr_and, Nat.mul_zero, Nat.mul_one, Nat.pow_zero, Nat.div_one]
+        rw [orF0 _ (by omega), or80 _ (by omega), or80 _ (by omega), or80 _ (by omega)]
+        simp only [Option.some.injEq, List.cons.injEq, and_true]
+        omega
+
+
+theorem utf8DecodeMech_cons (fix : Bool) (b : Nat) (rest : List Nat) :
+    utf8DecodeMech fix (b :: rest) =
+    match mechStep fix b rest with
+    | .fail => .fail
+    | .reprErr => .reprErr
+    | .char c r =>
+      match utf8DecodeMech fix r with
+      | .ok cs => .ok (c :: cs)
+      | d => d := by
+  rw [utf8DecodeMech]
+  split
+  · simp_all
+  · simp_all
+  · next c r hm =>
+    rw [hm]
+    simp only []
+    cases utf8DecodeMech fix r <;> rfl
+
+theorem shl_or (a x : Nat) (hx : x < 64) : (a <<< 6) ||| x = a * 64 + x := by
+  rw [← Nat.shiftLeft_add_eq_or_of_lt (by simpa using hx), Nat.shiftLeft_eq]
+
+theorem contStep_one (min code : Nat) (bs : List Nat) (hm : min ≤ code) (h : isScalar code) :
+    contStep min code 1 bs = .char code bs := by
+  simp only [contStep]
+  rw [if_neg (by omega), if_pos h]
+
+theorem contStep_cont (min code nb b : Nat) (r : List Nat) (hb : isCont b) (c : Nat)
+    (r' : List Nat) (h : contStep min (code * 64 + (b - 0x80)) (nb + 1) r = .char c r') :
+    contStep min code (nb + 2) (b :: r) = .char c r' := by
+  unfold isCont at hb
+  have hb' : b &&& 0xC0 = 0x80 := by
+    have := (lead_bits b (by omega)).2.2.2.2
+    rw [this]; exact hb
+  simp only [contStep, if_pos hb', shl_or code (b - 0x80) (by omega), h]
+
+theorem leading_1 (b : Nat) (h : b < 0x80) : leading b = some (1, b) := by
+  unfold leading
+  rw [if_pos (by rw [(lead_bits b (by omega)).1]; exact h)]
+
+theorem leading_2 (b : Nat) (h : 0xC0 ≤ b) (h' : b < 0xE0) : leading b = some (2, b - 0xC0) := by
+  unfold leading
+  have l := lead_bits b (by omega)
+  rw [if_neg (by rw [l.1]; omega), if_pos (by rw [l.2.1]; omega)]
+
+theorem leading_3 (b : Nat) (h : 0xE0 ≤ b) (h' : b < 0xF0) : leading b = some (3, b - 0xE0) := by
+  unfold leading
+  have l := lead_bits b (by omega)
+  rw [if_neg (by rw [l.1]; omega), if_neg (by rw [l.2.1]; omega), if_pos (by rw [l.2.2.1]; omega)]
+
+theorem leading_4 (b : Nat) (h : 0xF0 ≤ b) (h' : b < 0xF8) : leading b = some (4, b - 0xF0) := by
+  unfold leading
+  have l := lead_bits b (by omega)
+  rw [if_neg (by rw [l.1]; omega), if_neg (by rw [l.2.1]; omega), if_neg (by rw [l.2.2.1]; omega),
+    if_pos (by rw [l.2.2.2.1]; omega)]
+
+theorem mechStep_1 (fix : Bool) (b : Nat) (r : List Nat) (h : b < 0x80) :
+    mechStep fix b r = .char b r := by
+  unfold mechStep
+  rw [leading_1 b h]
+  have : (if fix = true then minCode 1 else 0) = 0 := by cases fix <;> rfl
+  simp only [this, contStep_one 0 b r (by omega) (by unfold isScalar; omega)]
+
+theorem mechStep_2 (fix : Bool) (b0 b1 : Nat) (r : List Nat) (h0 : 0xC0 ≤ b0) (h0' : b0 < 0xE0)
+    (h1 : isCont b1) (hc : 0x80 ≤ cp2 b0 b1) :
+    mechStep fix b0 (b1 :: r) = .char (cp2 b0 b1) r := by
+  unfold mechStep
+  rw [leading_2 b0 h0 h0']
+  have e : (b0 - 0xC0) * 64 + (b1 - 0x80) = cp2 b0 b1 := by unfold isCont at h1; unfold cp2; omega
+  have hm : (if fix = true then minCode 2 else 0) ≤ cp2 b0 b1 := by
+    cases fix <;> simp [minCode] <;> omega
+  have := contStep_cont (if fix = true then minCode 2 else 0) (b0 - 0xC0) 0 b1 r h1 (cp2 b0 b1) r (by
+    rw [e]; exact contStep_one _ _ _ hm (by unfold isScalar cp2; omega))
+  simp only [this]
+
+theorem mechStep_3 (fix : Bool) (b0 b1 b2 : Nat) (r : List Nat) (h0 : 0xE0 ≤ b0) (h0' : b0 < 0xF0)
+    (h1 : isCont b1) (h2 : isCont b2) (hc : 0x800 ≤ cp3 b0 b1 b2) (hs : isScalar (cp3 b0 b1 b2)) :
+    mechStep fix b0 (b1 :: b2 :: r) = .char (cp3 b0 b1 b2) r := by
+  unfold mechStep
+  rw [leading_3 b0 h0 h0']
+  have e : ((b0 - 0xE0) * 64 + (b1 - 0x80)) * 64 + (b2 - 0x80) = cp3 b0 b1 b2 := by
+    unfold isCont at h1 h2; unfold cp3; omega
+  have hm : (if fix = true then minCode 3 else 0) ≤ cp3 b0 b1 b2 := by
+    cases fix <;> simp [minCode] <;> omega
+  have := contStep_cont (if fix = true then minCode 3 else 0) (b0 - 0xE0) 1 b1 (b2 :: r) h1
+    (cp3 b0 b1 b2) r
+    (contStep_cont _ _ 0 b2 r h2 (cp3 b0 b1 b2) r (by rw [e]; exact contStep_one _ _ _ hm hs))
+  simp only [this]
+
+theorem mechStep_4 (fix : Bool) (b0 b1 b2 b3 : Nat) (r : List Nat) (h0 : 0xF0 ≤ b0)
+    (h0' : b0 < 0xF8) (h1 : isCont b1) (h2 : isCont b2) (h3 : isCont b3)
+    (hc : 0x10000 ≤ cp4 b0 b1 b2 b3) (hs : isScalar (cp4 b0 b1 b2 b3)) :
+    mechStep fix b0 (b1 :: b2 :: b3 :: r) = .char (cp4 b0 b1 b2 b3) r := by
+  unfold mechStep
+  rw [leading_4 b0 h0 h0']
+  have e : (((b0 - 0xF0) * 64 + (b1 - 0x80)) * 64 + (b2 - 0x80)) * 64 + (b3 - 0x80)
+      = cp4 b0 b1 b2 b3 := by
+    unfold isCont at h1 h2 h3; unfold cp4; omega
+  have hm : (if fix = true then minCode 4 else 0) ≤ cp4 b0 b1 b2 b3 := by
+    cases fix <;> simp [minCode] <;> omega
+  have := contStep_cont (if fix = true then minCode 4 else 0) (b0 - 0xF0) 2 b1 (b2 :: b3 :: r) h1
+    (cp4 b0 b1 b2 b3) r
+    (contStep_cont _ _ 1 b2 (b3 :: r) h2 (cp4 b0 b1 b2 b3) r
+      (contStep_cont _ _ 0 b3 r h3 (cp4 b0 b1 b2 b3) r (by
+        rw [e]; exact contStep_one _ _ _ hm hs)))
+  simp only [this]
+
+/-- on well-formed UTF-8 the clauses of `decode_utf8//1` (at HEAD and with the proposed patch)
+    compute the strict decoder's result -/
+theorem utf8DecodeMech_of_strict (fix : Bool) (bs cs : List Nat) (h : utf8Decode bs = some cs) :
+    utf8DecodeMech fix bs = .ok cs := by
+  fun_induction utf8Decode bs generalizing cs with
+  | case1 => cases h; rw [utf8DecodeMech]
+  | case2 b bs hb ih =>
+    rcases Option.map_eq_some_iff.mp h with ⟨r, e, rfl⟩
+    rw [utf8DecodeMech_cons, mechStep_1 fix b bs hb]
+    simp only [ih r e]
+  | case4 b h1 h2 h3 b1 r hc ih =>
+    rcases Option.map_eq_some_iff.mp h with ⟨r', e, rfl⟩
+    rw [utf8DecodeMech_cons, mechStep_2 fix b b1 r (by omega) h3 hc.1 hc.2]
+    simp only [ih r' e]
+  | case7 b h1 h2 h3 h4 b1 b2 r hc ih =>
+    rcases Option.map_eq_some_iff.mp h with ⟨r', e, rfl⟩
+    rw [utf8DecodeMech_cons, mechStep_3 fix b b1 b2 r (by omega) h4 hc.1 hc.2.1 hc.2.2.1 hc.2.2.2]
+    simp only [ih r' e]
+  | case10 b h1 h2 h3 h4 h5 b1 b2 b3 r hc ih =>
+    rcases Option.map_eq_some_iff.mp h with ⟨r', e, rfl⟩
+    rw [utf8DecodeMech_cons, mechStep_4 fix b b1 b2 b3 r (by omega) h5 hc.1 hc.2.1 hc.2.2.1
+      hc.2.2.2.1 (by unfold isScalar; omega)]
+    simp only [ih r' e]
+  | case3 => cases h
+  | case5 => cases h
+  | case6 => cases h
+  | case8 => cases h
+  | case9 => cases h
+  | case11 => cases h
+  | case12 => cases h
+  | case13 => cases h
+
+theorem mechStep_ne_fail (fix : Bool) (b : Nat) (r : List Nat) : mechStep fix b r ≠ .fail := by
+  unfold mechStep
+  split
+  · split <;> simp_all
+  · simp
+
+theorem utf8DecodeMech_ne_fail (fix : Bool) (bs : List Nat) : utf8DecodeMech fix bs ≠ .fail := by
+  induction h : bs.length using Nat.strongRecOn generalizing bs with
+  | _ n ih =>
+    cases bs with
+    | nil => rw [utf8DecodeMech]; simp
+    | cons b rest =>
+      rw [utf8DecodeMech_cons]
+      have := mechStep_ne_fail fix b rest
+      split
+      · contradiction
+      · simp
+      · next c r hm =>
+        have hle := mechStep_rest_le fix b rest c r hm
+        have := ih r.length (by subst h; simp; omega) r rfl
+        split <;> simp_all
+
+
+def accum (code : Nat) (conts : List Nat) : Nat :=
+  conts.foldl (fun a x => a * 64 + (x - 0x80)) code
+
+theorem contStep_inv (min : Nat) (k : Nat) : ∀ (code : Nat) (bs : List Nat) (c : Nat) (r : List Nat),
+    Bytes bs → contStep min code (k + 1) bs = .char c r → c ≠ 0xFFFD →
+    ∃ conts, conts.length = k ∧ (∀ x ∈ conts, isCont x) ∧ bs = conts ++ r ∧ c = accum code conts
+      ∧ min ≤ c ∧ isScalar c := by
+  induction k with
+  | zero =>
+    intro code bs c r hb h hc
+    simp only [contStep] at h
+    split at h
+    · cases h; exact absurd rfl hc
+    · split at h
+      · next hmin hsc =>
+        cases h
+        exact ⟨[], rfl, by simp, by simp, rfl, by omega, hsc⟩
+      · cases h
+  | succ k ih =>
+    intro code bs c r hb h hc
+    cases bs with
+    | nil => simp [contStep] at h
+    | cons b rest =>
+      have ⟨hb0, hbr⟩ := Bytes.cons_iff.mp hb
+      simp only [contStep] at h
+      split at h
+      · next hbit =>
+        have hcont : isCont b := by
+          have := (lead_bits b hb0).2.2.2.2
+          rw [this] at hbit; exact hbit
+        rw [shl_or code (b - 0x80) (by unfold isCont at hcont; omega)] at h
+        split at h
+        · cases h; exact absurd rfl hc
+        · have ⟨conts, hl, hall, hrest, hacc, hmin, hsc⟩ := ih _ rest c r hbr h hc
+          refine ⟨b :: conts, by simp [hl], ?_, by simp [hrest], ?_, hmin, hsc⟩
+          · intro x hx
+            rcases List.mem_cons.mp hx with rfl | hx
+            · exact hcont
+            · exact hall x hx
+          · simpa [accum] using hacc
+      · cases h; exact absurd rfl hc
+
+
+theorem leading_none (b : Nat) (hb : b < 256) (h : (0x80 ≤ b ∧ b < 0xC0) ∨ 0xF8 ≤ b) :
+    leading b = none := by
+  unfold leading
+  have l := lead_bits b hb
+  rw [if_neg (by rw [l.1]; omega), if_neg (by rw [l.2.1]; omega), if_neg (by rw [l.2.2.1]; omega),
+    if_neg (by rw [l.2.2.2.1]; omega)]
+
+theorem list_len1 {l : List Nat} (h : l.length = 1) : ∃ a, l = [a] := by
+  match l, h with
+  | [a], _ => exact ⟨a, rfl⟩
+
+theorem list_len2 {l : List Nat} (h : l.length = 2) : ∃ a b, l = [a, b] := by
+  match l, h with
+  | [a, b], _ => exact ⟨a, b, rfl⟩
+
+theorem list_len3 {l : List Nat} (h : l.length = 3) : ∃ a b c, l = [a, b, c] := by
+  match l, h with
+  | [a, b, c], _ => exact ⟨a, b, c, rfl⟩
+
+/-- with the proposed patch, a step that yields a character other than U+FFFD has consumed
+    exactly one well-formed UTF-8 sequence of that character -/
+theorem mechStep_fix_inv (b : Nat) (rest : List Nat) (c : Nat) (r : List Nat)
+    (hb : Bytes (b :: rest)) (h : mechStep true b rest = .char c r) (hc : c ≠ 0xFFFD) :
+    utf8Decode (b :: rest) = (utf8Decode r).map (c :: ·) := by
+  have ⟨hb0, hbr⟩ := Bytes.cons_iff.mp hb
+  unfold mechStep at h
+  by_cases h1 : b < 0x80
+  · rw [leading_1 b h1] at h
+    simp only [if_true] at h
+    split at h
+    · cases h; exact absurd rfl hc
+    · have ⟨conts, hl, _, hrest, hacc, _, _⟩ := contStep_inv _ 0 _ _ _ _ hbr h hc
+      have : conts = [] := List.eq_nil_of_length_eq_zero hl
+      subst this
+      simp only [List.nil_append] at hrest
+      simp only [accum, List.foldl_nil] at hacc
+      rw [hacc, ← hrest]
+      exact utf8Decode_1 b rest h1
+  · by_cases h2 : b < 0xC0
+    · rw [leading_none b hb0 (Or.inl ⟨by omega, h2⟩)] at h
+      cases h; exact absurd rfl hc
+    · by_cases h3 : b < 0xE0
+      · rw [leading_2 b (by omega) h3] at h
+        simp only [if_true] at h
+        split at h
+        · cases h; exact absurd rfl hc
+        · have ⟨conts, hl, hall, hrest, hacc, hmin, _⟩ := contStep_inv _ 1 _ _ _ _ hbr h hc
+          have ⟨b1, e⟩ := list_len1 hl
+          subst e
+          have hc1 : isCont b1 := hall b1 (by simp)
+          have e : c = cp2 b b1 := by
+            simp only [accum, List.foldl_cons, List.foldl_nil] at hacc
+            unfold isCont at hc1; unfold cp2; omega
+          subst e
+          simp only [minCode] at hmin
+          rw [hrest]
+          exact utf8Decode_2 b b1 r (by omega) h3 hc1 hmin
+      · by_cases h4 : b < 0xF0
+        · rw [leading_3 b (by omega) h4] at h
+          simp only [if_true] at h
+          split at h
+          · cases h; exact absurd rfl hc
+          · have ⟨conts, hl, hall, hrest, hacc, hmin, hsc⟩ := contStep_inv _ 2 _ _ _ _ hbr h hc
+            have ⟨b1, b2, e⟩ := list_len2 hl
+            subst e
+            have hc1 : isCont b1 := hall b1 (by simp)
+            have hc2 : isCont b2 := hall b2 (by simp)
+            have e : c = cp3 b b1 b2 := by
+              simp only [accum, List.foldl_cons, List.foldl_nil] at hacc
+              unfold isCont at hc1 hc2; unfold cp3; omega
+            subst e
+            simp only [minCode] at hmin
+            rw [hrest]
+            exact utf8Decode_3 b b1 b2 r (by omega) h4 hc1 hc2 hmin hsc
+        · by_cases h5 : b < 0xF8
+          · rw [leading_4 b (by omega) h5] at h
+            simp only [if_true] at h
+            split at h
+            · cases h; exact absurd rfl hc
+            · have ⟨conts, hl, hall, hrest, hacc, hmin, hsc⟩ := contStep_inv _ 3 _ _ _ _ hbr h hc
+              have ⟨b1, b2, b3, e⟩ := list_len3 hl
+              subst e
+              have hc1 : isCont b1 := hall b1 (by simp)
+              have hc2 : isCont b2 := hall b2 (by simp)
+              have hc3 : isCont b3 := hall b3 (by simp)
+              have e : c = cp4 b b1 b2 b3 := by
+                simp only [accum, List.foldl_cons, List.foldl_nil] at hacc
+                unfold isCont at hc1 hc2 hc3; unfold cp4; omega
+              subst e
+              simp only [minCode] at hmin
+              rw [hrest]
+              exact utf8Decode_4 b b1 b2 b3 r (by omega) h5 hc1 hc2 hc3 hmin
+                (by unfold isScalar at hsc; omega)
+          · rw [leading_none b hb0 (Or.inr (by omega))] at h
+            cases h; exact absurd rfl hc
+
+theorem contStep_suffix (min code nb : Nat) (bs : List Nat) (c : Nat) (r : List Nat)
+    (h : contStep min code nb bs = .char c r) : r <:+ bs := by
+  induction nb using Nat.strongRecOn generalizing code bs with
+  | _ nb ih =>
+    match nb, bs with
+    | 0, _ => simp [contStep] at h
+    | 1, bs =>
+      simp only [contStep] at h
+      split at h
+      · cases h; exact List.suffix_refl _
+      · split at h
+        · cases h; exact List.suffix_refl _
+        · cases h
+    | nb + 2, [] => simp [contStep] at h
+    | nb + 2, b :: r' =>
+      simp only [contStep] at h
+      split at h
+      · split at h
+        · cases h; exact List.suffix_cons _ _
+        · exact List.IsSuffix.trans (ih (nb + 1) (by omega) _ r' h) (List.suffix_cons _ _)
+      · cases h; exact List.suffix_cons _ _
+
+theorem mechStep_suffix (fix : Bool) (b : Nat) (rest : List Nat) (c : Nat) (r : List Nat)
+    (h : mechStep fix b rest = .char c r) : r <:+ rest := by
+  unfold mechStep at h
+  split at h
+  · split at h
+    · cases h; exact List.suffix_refl _
+    · exact contStep_suffix _ _ _ _ _ _ h
+  · cases h; exact List.suffix_refl _
+
+/-- with the proposed patch: if the decoder returns characters none of which is U+FFFD, the input
+    was well-formed UTF-8 and the characters are its strict decoding -/
+theorem utf8DecodeMech_fix_sound (bs cs : List Nat) (hb : Bytes bs)
+    (h : utf8DecodeMech true bs = .ok cs) (hf : 0xFFFD ∉ cs) : utf8Decode bs = some cs := by
+  induction hn : bs.length using Nat.strongRecOn generalizing bs cs with
+  | _ n ih =>
+    cases bs with
+    | nil => rw [utf8DecodeMech] at h; cases h; rfl
+    | cons b rest =>
+      rw [utf8DecodeMech_cons] at h
+      split at h
+      · cases h
+      · cases h
+      · next c r hm =>
+        have hle := mechStep_rest_le true b rest c r hm
+        have hsuf := mechStep_suffix true b rest c r hm
+        have hbr : Bytes r := fun x hx => hb x (List.mem_cons_of_mem _ (hsuf.subset hx))
+        cases hd : utf8DecodeMech true r with
+        | fail => simp [hd] at h
+        | reprErr => simp [hd] at h
+        | ok cs' =>
+          simp only [hd] at h
+          cases h
+          have hc : c ≠ 0xFFFD := fun e => hf (by simp [e])
+          have hf' : 0xFFFD ∉ cs' := fun e => hf (by simp [e])
+          have := ih r.length (by subst hn; simp; omega) r cs' hbr hd hf' rfl
+          rw [mechStep_fix_inv b rest c r hb hm hc, this]
+          rfl
+
+
+theorem firstNonByte_none_iff (bs : List Int) :
+    firstNonByte bs = none ↔ ∀ b ∈ bs, 0 ≤ b ∧ b ≤ 255 := by
+  induction bs with
+  | nil => simp [firstNonByte]
+  | cons b bs ih =>
+    by_cases hb : 0 ≤ b ∧ b ≤ 255
+    · rw [firstNonByte, if_pos hb, ih]
+      simp only [List.mem_cons, forall_eq_or_imp]
+      exact ⟨fun h => ⟨hb, h⟩, fun h => h.2⟩
+    · rw [firstNonByte, if_neg hb]
+      simp only [List.mem_cons, forall_eq_or_imp]
+      exact ⟨fun h => (by cases h), fun h => absurd h.1 hb⟩
+
+theorem firstNonByte_some (bs : List Int) (b : Int) (h : firstNonByte bs = some b) :
+    b ∈ bs ∧ ¬ (0 ≤ b ∧ b ≤ 255) := by
+  induction bs with
+  | nil => simp [firstNonByte] at h
+  | cons a bs ih =>
+    by_cases ha : 0 ≤ a ∧ a ≤ 255
+    · rw [firstNonByte, if_pos ha] at h
+      have := ih h
+      exact ⟨List.mem_cons_of_mem _ this.1, this.2⟩
+    · rw [firstNonByte, if_neg ha] at h
+      cases h
+      exact ⟨by simp, ha⟩
+
 
 end Scryer.Codec
